@@ -451,6 +451,7 @@ def api_stage(res, seed):
     for sparse in (False, True):
         for compressed in (False, True):
             X = nrng.standard_normal((n, dim)).astype(np.float32)
+            X[n - 12:] = X[:12]                          # exact duplicates: edges of length 0 (nothing can occlude them)
             if sparse:
                 X = sp.csr_matrix(X * (nrng.random((n, dim)) < 0.8))
             cfg = {"sparse": sparse, "compressed": compressed, "n": n, "k": k, "diversify_prob": 0.0, "pruning_degree_multiplier": 4.0}
